@@ -109,11 +109,13 @@ impl World {
     }
 }
 
-const VAR_POOL: [&[&str]; 4] = [
+const VAR_POOL: [&[&str]; 5] = [
     &["a", "b", "c", "d", "e"],
     &["v1", "v2", "v3", "v4", "v5"],
     &["x", "p", "q", "xx", "r"],
     &["Gene_1", "g2", "EXt", "A_b", "z9"],
+    // legal names that look like the library's own names for spare variables
+    &["sig_extra_0", "b", "q_extra_1", "d_extra", "extra_2"],
 ];
 
 pub const LABEL_POOL: [&str; 12] = ["d", "p", "q", "s1", "dom_2", "A", "w", "e0", "1", "0", "true", "False"];
@@ -134,7 +136,7 @@ fn read_once(rng: &mut Rng, lits: &mut Vec<String>) -> String {
 /// One attempt at generating network text. May describe a network without valid colours; the
 /// caller retries with the next sub-stream in that case.
 fn gen_model_text(rng: &mut Rng) -> String {
-    let names = VAR_POOL[rng.weighted(&[5, 2, 2, 1])];
+    let names = VAR_POOL[rng.weighted(&[5, 2, 2, 1, 1])];
     let n = rng.weighted(&[0, 0, 3, 4, 3, 2]); // 2..=5 variables
     let vars: Vec<&str> = names[..n].to_vec();
     let mut lines: Vec<String> = Vec::new();
